@@ -38,7 +38,7 @@ def model_checks(tier):
 
 
 def cases(tier, seed, info):
-    n = 40 if tier == 'quick' else 4000
+    n = 64 if tier == 'quick' else 4000
     info['directory_junk_pairs'] = n
     return [dict(seed=seed * 4001 + k, k=k) for k in range(n)]
 
